@@ -60,6 +60,8 @@ K_LIMIT_ISSPENT = 'C20/error-limit/isspent-returns-false'
 K_LIMIT_FEE_CACHED = 'C20/error-limit/estimatefee-network-default-served-from-cache'
 K_EMPTY_NOLIMIT = 'C20/error-limit/not-evaluated-after-empty-response'
 K_CONF_NEG = 'C20/cache/confirmations-computed-from-expired-blockcount'
+K_PAGE_ORDER = 'C20/cache/block-page-served-in-insertion-order'
+K_INDEX_ORDER = 'C20/cache/same-block-order-from-answer-position'
 K_PARTIAL_HISTORY = 'C20/cache/address-balance-summed-over-partial-history'
 
 METHODS = ['blockcount', 'getbalance', 'getutxos', 'gettransaction', 'gettransactions', 'getrawtransaction',
@@ -107,6 +109,8 @@ class Chain:
         self._mk('t3', [('t1', None, 0, 'A', None)], [('C', 20000003), ('A', 29990003)], 800002, 0)
         self._mk('t4', [('t2', None, 1, 'B', None)], [('C', 6990004)], 800003, 0)
         self._mk('t5', [('ext', ext('e5'), 0, 'Z', 7010005)], [('B', 3000005), ('C', 4000005)], 800004, 0)
+        self._mk('t9', [('ext', ext('e9'), 0, 'Z', 9010009)], [('C', 5000009), ('A', 4000009)], 800004, 1)
+        self._mk('t10', [('ext', ext('e10'), 1, 'Z', 3010010)], [('A', 1000010), ('C', 2000010)], 800004, 2)
         # later blocks: only visible to the providers once the run's chain has grown (epoch 1 / 2)
         self._mk('t7', [('ext', ext('e7'), 0, 'Z', 4010007)], [('C', 2500007), ('A', 1500007)], 800005, 0, epoch=1)
         self._mk('t8', [('ext', ext('e8'), 2, 'Z', 1710008)], [('B', 800008), ('C', 900008)], 800006, 0, epoch=2)
@@ -114,7 +118,7 @@ class Chain:
         self.by_txid = {t['txid']: n for n, t in self.txs.items()}
         self.blocks = {}
         prev = hashlib.sha256(b'c20-genesis').hexdigest()
-        for bn, (h, names) in enumerate([(800001, ['t1', 't2']), (800002, ['t3']), (800003, ['t4']), (800004, ['t5']), (800005, ['t7']), (800006, ['t8'])]):
+        for bn, (h, names) in enumerate([(800001, ['t1', 't2']), (800002, ['t3']), (800003, ['t4']), (800004, ['t5', 't9', 't10']), (800005, ['t7']), (800006, ['t8'])]):
             bh = '0000' + hashlib.sha256(b'c20-block-%d' % h).hexdigest()[4:]
             mr = rtx.merkle_root([bytes.fromhex(self.txs[n]['txid'])[::-1] for n in names])[::-1].hex()
             self.blocks['b%d' % (bn + 1)] = {'hash': bh, 'height': h, 'txs': names, 'prev': prev, 'merkle': mr,
@@ -414,6 +418,8 @@ def _fake_module():
             return 3000.5 + tag * 7
         if method == 'isspent':
             return 'c20-malformed-%d' % tag
+        if method == 'getblock' and tag % 2:
+            return {}
         if method in ('getinfo', 'sendrawtransaction', 'getblock'):
             return ['c20-malformed', tag]
         if method in ('getrawtransaction', 'getrawblock'):
@@ -962,6 +968,8 @@ def _judge_list(callrec, ret, fresh, execs, what, any_malformed):
     else:
         suffix = []
     prefix = ret[:len(ret) - len(suffix)]
+    if what == 'tx' and name is not None and all(isinstance(el, S.Transaction) for el in ret):
+        out += _run_problems(callrec, ret, name, bool(execs))
     seen = set()
     for n_el, el in enumerate(ret):
         if what == 'tx':
@@ -994,7 +1002,122 @@ def _judge_list(callrec, ret, fresh, execs, what, any_malformed):
                 out.append(('cache', 'cached utxo %s:%s value %s is no output of %s to %s' % (tn, n, el.get('value'), tn, name)))
             elif not any(f['block_height'] == el.get('block_height') and f['date'] == _ts(el.get('date')) for f in W.reg_tx.get(el['txid'], [])):
                 out.append(('cache', 'cached utxo %s:%s carries height/date no provider gave' % (tn, n)))
+    if out and what == 'tx' and name is not None and _cached_order_explains(callrec, name, prefix):
+        out = [(code, why if why.startswith('C20/') else K_INDEX_ORDER + '|' + why) for code, why in out]
     return out
+
+
+def _cache_view(name):
+    """Independent look (sqlite3, read only): chain transactions of the address in the cache db, record's last_block."""
+    import sqlite3
+    c = _state['W'].c
+    try:
+        con = sqlite3.connect('file:%s?mode=ro' % _state['dbp'], uri=True)
+        rows = con.execute("select distinct txid from cache_transactions_node where address=?", (c.addr[name],)).fetchall()
+        rec = con.execute("select last_block from cache_address where address=?", (c.addr[name],)).fetchall()
+        con.close()
+    except Exception:
+        return None, None
+    return {c.by_txid.get(bytes(r[0]).hex()) for r in rows} - {None}, (rec[0][0] if rec else None)
+
+
+def _cached_order_explains(callrec, name, prefix):
+    """Narrow shape of one known deviation: the cache orders the transactions of one block by the position they had
+    in the provider answer that brought them in (a counter restarting at 0 for every answer). True when (1) that stored
+    order really inverts two transactions of the same block and (2) the cache-served part of the list is exactly
+    what the documented after_txid / limit rule yields on the stored order."""
+    import sqlite3
+    c = _state['W'].c
+    S = _state['S']
+    try:
+        con = sqlite3.connect('file:%s?mode=ro' % _state['dbp'], uri=True)
+        rows = con.execute('select distinct t.txid, t.block_height, t."index" from cache_transactions t join cache_transactions_node n '
+                           'on n.txid = t.txid where n.address=? order by t.block_height, t."index"', (c.addr[name],)).fetchall()
+        rec = con.execute("select last_block from cache_address where address=?", (c.addr[name],)).fetchall()
+        con.close()
+    except Exception:
+        return False
+    seq = [(c.by_txid.get(bytes(r[0]).hex()), r[1]) for r in rows]
+    if any(n is None for n, _ in seq):
+        return False
+    hist = c.txs_of(name, True)
+    pos = {n: i for i, n in enumerate(hist)}
+    inverted = any(h1 == h2 and pos.get(a, -1) > pos.get(b, -1) for (a, h1), (b, h2) in zip(seq, seq[1:]))
+    if not inverted:
+        return False
+    after = c.by_txid.get(callrec['args'][1]) if callrec['args'][1] else None
+    limit = callrec['args'][2]
+    last_block = rec[0][0] if rec else None
+    if after is not None:
+        if after not in pos or last_block is None:
+            return False
+        h_after = c.txs[after]['height']
+        model = []
+        for n, h in seq:
+            if h >= h_after and h <= last_block:
+                model.append(n)
+                if n == after:
+                    model = []
+    else:
+        model = [n for n, _ in seq]
+    model = model[:limit]
+    got = [c.by_txid.get(el.txid) for el in prefix if isinstance(el, S.Transaction)]
+    return got == model
+
+
+def _run_problems(callrec, ret, name, asked_provider):
+    """A transaction list for (address, after_txid) must be a gap-free run of the address history that starts right
+    after after_txid (or at the beginning): nothing in the middle or at the head may be missing. When no provider was
+    asked the run must also cover everything the cache holds for that request."""
+    W = _state['W']
+    c = W.c
+    out = []
+    m = callrec['m']
+    after = c.by_txid.get(callrec['args'][1]) if callrec['args'][1] else None
+    limit = callrec['args'][2]
+    hist = c.txs_of(name, True)
+    names = [c.by_txid.get(el.txid) for el in ret]
+    conf = [n for n in names if n in hist]
+    tail = names[len(conf):]
+    if names[:len(conf)] != conf or any(n is None or c.txs[n]['height'] for n in tail):
+        out.append(('mixed', '%s: unconfirmed / foreign transactions are not at the end of the list %s' % (m, names)))
+        return out
+    start = hist.index(after) + 1 if after in hist else 0
+    if conf and conf != hist[start:start + len(conf)]:
+        out.append(('partial', '%s(%s, after=%s) returned %s: not a gap-free run of the address history %s starting after %s' % (
+            m, name, after, names, hist, after or 'the beginning')))
+        return out
+    if not asked_provider and after in hist + [None]:
+        cached, last_block = _cache_view(name)
+        if cached is not None:
+            k = 0
+            while start + k < len(hist) and hist[start + k] in cached and (last_block is None or c.txs[hist[start + k]]['height'] <= last_block):
+                k += 1
+            if len(conf) < min(k, limit):
+                out.append(('partial', '%s(%s, after=%s) answered from the cache with %s although the cache holds %s for that request' % (
+                    m, name, after, names, hist[start:start + min(k, limit)])))
+    return out
+
+
+def _page_problems(callrec, ret, from_cache=False):
+    """The transactions of a returned block are exactly the requested page of the block."""
+    c = _state['W'].c
+    S = _state['S']
+    blockid, parse, page, limit = callrec['args']
+    if limit is None:
+        limit = 25 if parse else 99999
+    b = [bb for bb in c.blocks.values() if bb['height'] == blockid or bb['hash'] == blockid]
+    if not b:
+        return []
+    exp = b[0]['txs'][(page - 1) * limit: page * limit]
+    got = [c.by_txid.get(el.txid if isinstance(el, S.Transaction) else el) for el in ret.transactions]
+    if got != exp:
+        key = ''
+        if from_cache and None not in got and len(got) == len(exp) and set(got) == set(exp):
+            key = K_PAGE_ORDER + '|'       # same transactions, only their order differs (cache query has no ORDER BY)
+        return [('partial', key + 'getblock(%s, page=%s, limit=%s) returned transactions %s, the requested page of the block is %s' % (
+            [k for k, v in c.blocks.items() if v is b[0]][0], page, limit, got, exp))]
+    return []
 
 
 def _judge_block(callrec, ret, fresh, execs, col):
@@ -1020,6 +1143,7 @@ def _judge_block(callrec, ret, fresh, execs, col):
     b = [bb for bb in c.blocks.values() if bb['height'] == blockid or bb['hash'] == blockid]
     if b and b[0]['hash'] != bh:
         out.append(('mixed', 'getblock(%s) returned block %s' % (blockid, bh[:16])))
+    out += _page_problems(callrec, ret, from_cache=(src is None and not (flat and execs)))
     if src is not None:
         txs = src['value']['txs']
         if len(ret.transactions) != len(txs) or not all(a is b_ for a, b_ in zip(ret.transactions, txs)):
@@ -1211,16 +1335,18 @@ def default_spec(m, rnd):
                            {'addrs': ['A', 'B', 'C', 'D', 'E', 'F', 'G']}])
     if m in ('getutxos', 'gettransactions'):
         return rnd.choice([{'addr': 'A'}, {'addr': 'B'}, {'addr': 'C'}, {'addr': 'A', 'limit': 2}, {'addr': 'C', 'limit': 3},
-                           {'addr': 'A', 'after': 't1'}])
+                           {'addr': 'A', 'after': 't1'}, {'addr': 'C', 'after': 't5'}, {'addr': 'C', 'after': 't9'},
+                           {'addr': 'A', 'after': 't9'}, {'addr': 'B', 'after': 't2'}])
     if m in ('gettransaction', 'getrawtransaction'):
-        return {'tx': rnd.choice(['t1', 't2', 't3', 't4', 't5', 't6'])}
+        return {'tx': rnd.choice(['t1', 't2', 't3', 't4', 't5', 't6', 't9', 't10'])}
     if m == 'sendrawtransaction':
         return {'tx': 't6'}
     if m == 'estimatefee':
         return rnd.choice([{'blocks': 1}, {'blocks': 3}, {'blocks': 5}, {'blocks': 10}, {'priority': 'low'}, {'priority': 'high'}])
     if m in ('getblock',):
         return rnd.choice([{'blk': 'b1'}, {'blk': 'b1', 'by_hash': True}, {'blk': 'b2', 'parse': False}, {'blk': 'b1', 'limit': 1},
-                           {'blk': 'b1', 'limit': 1, 'page': 2}, {'blk': 'b3'}])
+                           {'blk': 'b1', 'limit': 1, 'page': 2}, {'blk': 'b3'}, {'blk': 'b4'}, {'blk': 'b4', 'limit': 2},
+                           {'blk': 'b4', 'limit': 2, 'page': 2}, {'blk': 'b4', 'limit': 1, 'page': 3, 'parse': False}])
     if m == 'getrawblock':
         return rnd.choice([{'blk': 'b1'}, {'blk': 'b2', 'by_hash': True}])
     if m == 'mempool':
@@ -1394,6 +1520,57 @@ def gen_record_scenarios():
     return out
 
 
+def gen_after_scenarios():
+    """Warm the cache with the address history, then ask for the transactions after every position of that history
+    (several positions share a block) under different provider fault plans."""
+    out = []
+    hist = {'A': ['t1', 't2', 't3', 't9', 't10'], 'B': ['t2', 't4', 't5'], 'C': ['t3', 't4', 't5', 't9', 't10']}
+    plans = (['ok', 'ok'], ['exc', 'exc'], ['empty', 'exc'], ['exc', 'ok'], ['malformed', 'ok'])
+    n = 0
+    for addr in ('A', 'B', 'C'):
+        for warm in ({'addr': addr}, {'addr': addr, 'limit': 4}, None):
+            for pl in plans:
+                for grow in (0, 1):
+                    n += 1
+                    cs = {'net': NETS[n % 3], 'prio': [20, 10], 'me': MAX_ERRORS[n % 4], 'minp': 1, 'maxp': 1, 'rs': n,
+                          'spent_info': bool(n % 2), 'calls': []}
+                    if warm is not None:
+                        cs['calls'].append({'m': 'gettransactions', 'a': dict(warm), 'plans': {'gettransactions': ['ok', 'ok']}})
+                    else:
+                        cs['calls'].append({'m': 'getblock', 'a': {'blk': 'b4'}, 'plans': {'getblock': ['ok', 'ok']}})
+                        cs['calls'].append({'m': 'getutxos', 'a': {'addr': addr}, 'plans': {'getutxos': ['ok', 'ok']}})
+                    for j, x in enumerate(hist[addr]):
+                        cs['calls'].append({'m': 'gettransactions', 'a': {'addr': addr, 'after': x}, 'plans': {'gettransactions': list(pl)},
+                                            'grow': grow if j == 2 else 0})
+                    out.append(cs)
+    return out
+
+
+def gen_page_scenarios():
+    """Paged getblock sequences over blocks with more transactions than one page: a first successful request caches
+    the header and part of the block, a second request that the cache covers fully / partly / not at all runs under
+    every provider fault plan."""
+    out = []
+    firsts = ((1, 2), (1, 1), (2, 1), (1, 3))
+    seconds = ((1, 3), (2, 2), (2, 1), (3, 1), (1, 2), (1, None))
+    n = 0
+    for blk in ('b4', 'b1'):
+        for fp, fl in (firsts if blk == 'b4' else firsts[1:3]):
+            for sp, sl in seconds:
+                for pl in itertools.product(KINDS4, repeat=2):
+                    n += 1
+                    parse = bool(n % 3)
+                    cs = {'net': NETS[n % 3], 'prio': [20, 10], 'me': (1, 2, 4)[n % 3], 'minp': 1, 'maxp': 1, 'rs': n,
+                          'spent_info': bool(n % 2), 'calls': [
+                              {'m': 'getblock', 'a': {'blk': blk, 'page': fp, 'limit': fl, 'parse': parse, 'by_hash': bool(n % 2)},
+                               'plans': {'getblock': ['ok', 'ok']}},
+                              {'m': 'getblock', 'a': {'blk': blk, 'page': sp, 'limit': sl, 'parse': parse}, 'plans': {'getblock': list(pl)},
+                               'adv': (0, 61)[n % 2]},
+                              {'m': 'getblock', 'a': {'blk': blk, 'page': 1, 'limit': 3, 'parse': parse}, 'plans': {'getblock': list(pl[::-1])}}]}
+                    out.append(cs)
+    return out
+
+
 def plan(tier, seed, scale=1.0):
     thorough = tier == 'thorough'
     nshard = 16
@@ -1430,6 +1607,10 @@ def run_shard(spec, col):
         if j % ns == sh:
             cs = dict(cs, rs=cs['rs'] + 1000 * seed, me=MAX_ERRORS[(j + seed) % 4])
             run_case(cs, col)
+    # B3. after_txid at every position of a warm history; B4. paged getblock under every fault plan
+    for j, cs in enumerate(gen_after_scenarios() + gen_page_scenarios()):
+        if j % ns == sh:
+            run_case(dict(cs, rs=cs['rs'] + 1000 * seed), col)
     # C. random sequences
     rnd = random.Random('%s-%d-%d' % (ID, seed, sh))
     for _ in range(spec['n_random']):
